@@ -24,6 +24,7 @@ import (
 	"go/parser"
 	"go/token"
 	"os"
+	"reflect"
 	"sort"
 	"strconv"
 	"strings"
@@ -551,6 +552,37 @@ func (t *descTr) primary(fd *ast.FuncDecl) []string {
 	return copied
 }
 
+// anonName: the field name of an anonymous field of type T, *T, pkg.T or *pkg.T.
+func anonName(e ast.Expr) string {
+	switch x := e.(type) {
+	case *ast.Ident:
+		return x.Name
+	case *ast.StarExpr:
+		return anonName(x.X)
+	case *ast.SelectorExpr:
+		return x.Sel.Name
+	}
+	return ""
+}
+
+// srcField renders a declared field with its `gerror:"name,opts"` tag as an xfield (values empty).
+func srcField(name, tag string) string {
+	val, tagged := reflect.StructTag(tag).Lookup("gerror")
+	tagname, opts := "", []string{}
+	if tagged {
+		parts := strings.Split(val, ",")
+		tagname = parts[0]
+		for _, o := range parts[1:] {
+			opts = append(opts, dgstr(o))
+		}
+	}
+	b := "false"
+	if tagged {
+		b = "true"
+	}
+	return "mkF " + dgstr(name) + " " + b + " " + dgstr(tagname) + " [" + strings.Join(opts, "; ") + "] [] []"
+}
+
 func descMain(args []string) {
 	fs := flag.NewFlagSet("desc", flag.ExitOnError)
 	gen := fs.String("gen", "", "generated file(s), comma separated")
@@ -575,6 +607,7 @@ func descMain(args []string) {
 		files = append(files, f)
 	}
 	var errFn, primFn *ast.FuncDecl
+	var srcFields []string // the struct's extra fields as GErrModel.xfield terms, from the DEFINITION
 	found := false
 	for _, f := range files {
 		for _, d := range f.Decls {
@@ -594,8 +627,27 @@ func descMain(args []string) {
 					}
 					found = true
 					for _, fl := range st.Fields.List {
+						names := []string{}
 						for _, n := range fl.Names {
-							t.ownFields[n.Name] = true
+							names = append(names, n.Name)
+						}
+						if len(fl.Names) == 0 { // anonymous field: named after its type
+							n := anonName(fl.Type)
+							if n == "GError" {
+								continue // the embedded base
+							}
+							if n == "" {
+								dfail("type %s: unsupported anonymous field", *typ)
+							}
+							names = append(names, n)
+						}
+						tag := ""
+						if fl.Tag != nil {
+							tag, _ = strconv.Unquote(fl.Tag.Value)
+						}
+						for _, n := range names {
+							t.ownFields[n] = true
+							srcFields = append(srcFields, srcField(n, tag))
 						}
 					}
 				}
@@ -666,5 +718,8 @@ func descMain(args []string) {
 		sb.WriteString(dgstr(f))
 	}
 	sb.WriteString("].\n")
+	// the struct's declared extra fields (named and anonymous) with their parsed gerror tags, read
+	// from the struct DEFINITION: the expected print / clone lists are computed from these
+	fmt.Fprintf(&sb, "Definition src_fields_%s : list xfield :=\n  [%s].\n", *name, strings.Join(srcFields, ";\n   "))
 	fmt.Print(sb.String())
 }
